@@ -44,6 +44,8 @@ var props = map[string]propSpec{
 	"C02": {Scenarios: []string{"csync"}},
 	"C03": {Scenarios: []string{"bcast"}},
 	"C20": {Scenarios: []string{"io"}},
+	// C13: every scenario, built with the race detector and the spin parker
+	"C13": {Race: true, Scenarios: []string{"refcount", "routine", "keyedrun", "csync", "ccall", "promise", "once", "conc", "ccont", "bcast", "stack", "io", "keyedset", "routine14", "refcount", "routine"}},
 	"C08": {Scenarios: []string{"refcount"}},
 	"C09": {Scenarios: []string{"refcount"}},
 	"C10": {Scenarios: []string{"refcount"}},
@@ -84,24 +86,26 @@ type violationRec struct {
 }
 
 type batchResult struct {
-	Scenario   string         `json:"scenario"`
-	Runs       int            `json:"runs"`
-	Steps      int64          `json:"steps"`
-	SimNs      int64          `json:"sim_ns"`
-	Truncated  int            `json:"truncated"`
-	NonTrivial int            `json:"nontrivial_runs"`
-	Counts     map[string]int `json:"counts"`
-	RunsWith   map[string]int `json:"runs_with"`
-	Strategies map[string]int `json:"strategies"`
-	NTHashes   []uint64       `json:"nt_hashes"`
-	HashCapHit bool           `json:"hash_cap_hit"`
-	Violations []violationRec `json:"violations"`
-	ViolCount  map[string]int `json:"violation_counts"`
-	Samples    [][]string     `json:"samples"`
-	DetChecks  int            `json:"determinism_double_runs"`
-	DetFail    []string       `json:"determinism_failures"`
-	WallS      float64        `json:"wall_s"`
-	Parker     string         `json:"parker"`
+	Scenario    string         `json:"scenario"`
+	Runs        int            `json:"runs"`
+	Steps       int64          `json:"steps"`
+	SimNs       int64          `json:"sim_ns"`
+	Truncated   int            `json:"truncated"`
+	NonTrivial  int            `json:"nontrivial_runs"`
+	Counts      map[string]int `json:"counts"`
+	RunsWith    map[string]int `json:"runs_with"`
+	Strategies  map[string]int `json:"strategies"`
+	NTHashes    []uint64       `json:"nt_hashes"`
+	HashCapHit  bool           `json:"hash_cap_hit"`
+	Violations  []violationRec `json:"violations"`
+	ViolCount   map[string]int `json:"violation_counts"`
+	Samples     [][]string     `json:"samples"`
+	DetChecks   int            `json:"determinism_double_runs"`
+	DetFail     []string       `json:"determinism_failures"`
+	WallS       float64        `json:"wall_s"`
+	Parker      string         `json:"parker"`
+	RaceReports int            `json:"race_reports_total"`
+	RaceKept    int            `json:"race_reports_library"`
 }
 
 type finding struct {
@@ -171,7 +175,7 @@ func prepare(race bool) (worker string) {
 	worker = filepath.Join(scratch, "simworker")
 	args := []string{"build", "-modfile=" + filepath.Join(scratch, "go.mod"), "-o", worker}
 	if race {
-		args = append(args, "-race", "-tags", "verifsim_futex")
+		args = append(args, "-race", "-tags", "verifsim_spin")
 	}
 	args = append(args, "./cmd/simworker")
 	if out, err := runCmd(simDir, env, "go", args...); err != nil {
@@ -225,6 +229,9 @@ func main() {
 		}
 	}
 	secs := 10.0
+	if spec.Race {
+		secs = 20
+	}
 	if tier == "thorough" {
 		secs = 480
 	}
@@ -269,6 +276,11 @@ func main() {
 			}
 			cmd := exec.Command(worker, args...)
 			cmd.Env = append(os.Environ(), "GOMAXPROCS=2")
+			if spec.Race {
+				rl := filepath.Join(scratch, fmt.Sprintf("race-w%d", i))
+				cmd.Args = append(cmd.Args, "-racelog", rl, "-libprefix", repoDir)
+				cmd.Env = append(os.Environ(), "GOMAXPROCS=1", "GORACE=halt_on_error=0 exitcode=0 log_path="+rl)
+			}
 			o, err := cmd.CombinedOutput()
 			if err != nil {
 				errs[i] = fmt.Sprintf("worker %d (%s): %v\n%s", i, j.scenario, err, tailStr(string(o), 4000))
@@ -328,6 +340,8 @@ func main() {
 			agg.Samples = append(agg.Samples, r.Samples...)
 		}
 		agg.Parker = r.Parker
+		agg.RaceReports += r.RaceReports
+		agg.RaceKept += r.RaceKept
 	}
 	if len(agg.DetFail) > 0 {
 		infra("nondeterminism detected (same seed, different event log): %v", agg.DetFail)
@@ -357,13 +371,27 @@ func main() {
 		in := filepath.Join(scratch, "viol.json")
 		writeJSON(in, v)
 		min := filepath.Join(scratch, "min.json")
-		if out, err := runCmd(scratch, os.Environ(), worker, "-shrink", in, "-out", min); err != nil {
+		env := os.Environ()
+		replayArgs := []string{}
+		if spec.Race {
+			// the race detector reports each pair of stacks once per process, so a
+			// failing tape cannot be re-tested in-process: race violations are
+			// replayed (fresh process) but not minimised
+			min = in
+			rl := filepath.Join(scratch, "race-replay")
+			env = append(env, "GOMAXPROCS=1", "GORACE=halt_on_error=0 exitcode=0 log_path="+rl)
+			replayArgs = []string{"-racelog", rl, "-libprefix", repoDir}
+		} else if out, err := runCmd(scratch, os.Environ(), worker, "-shrink", in, "-out", min); err != nil {
 			infra("minimising %s failed: %v\n%s", or, err, out)
 		}
-		rp := filepath.Join(verifDir, "replays", fmt.Sprintf("%s-%s-%d.json", prop, sanitize(or), v.Seed))
+		name := sanitize(or)
+		if len(name) > 90 {
+			name = name[:90]
+		}
+		rp := filepath.Join(verifDir, "replays", fmt.Sprintf("%s-%s-%d.json", prop, name, v.Seed))
 		b, _ := os.ReadFile(min)
 		os.WriteFile(rp, b, 0o644)
-		out, err := runCmd(scratch, os.Environ(), worker, "-replay", rp)
+		out, err := runCmd(scratch, env, worker, append([]string{"-replay", rp}, replayArgs...)...)
 		if err != nil || !strings.HasPrefix(out, "REPRODUCED ") {
 			infra("replay of the minimised violation %s did not reproduce exactly in a fresh process: %v\n%s", or, err, tailStr(out, 2000))
 		}
@@ -435,16 +463,18 @@ func main() {
 			"determinism_double_runs": agg.DetChecks,
 			"violations_by_oracle":    agg.ViolCount,
 			"known_findings_seen":     known,
+			"race_reports_total":      agg.RaceReports,
+			"race_reports_in_library": agg.RaceKept,
 			"workers":                 nw,
 			"parker":                  agg.Parker,
 			"build_s":                 buildS,
 			"real_vs_stub": map[string]string{
 				"library packages (broadcast csync routine keyed refcount ccontainer promise memo ccall conc cqueue linkedlist iocloser iosizer ioproxy ioseek unique backoff)": "real code of the current /repo working tree, mechanically instrumented (simgen)",
-				"context, cenkalti/backoff, logrus, protobuf-go-lite":                         "real, unmodified",
-				"sync.Mutex/RWMutex/Once/WaitGroup":                                          "stub: cooperative versions over a real mutex",
-				"sync/atomic":                                                                "real operation behind a scheduling point",
-				"goroutine scheduling, select choice, map iteration order":                   "stub: seeded one-token scheduler",
-				"time (AfterFunc, Timer, After, Now, Sleep)":                                 "stub: virtual clock",
+				"context, cenkalti/backoff, logrus, protobuf-go-lite":      "real, unmodified",
+				"sync.Mutex/RWMutex/Once/WaitGroup":                        "stub: cooperative versions over a real mutex",
+				"sync/atomic":                                              "real operation behind a scheduling point",
+				"goroutine scheduling, select choice, map iteration order": "stub: seeded one-token scheduler",
+				"time (AfterFunc, Timer, After, Now, Sleep)":               "stub: virtual clock",
 				"user callbacks (routines, resolvers, predicates, jobs, streams), contexts' cancellation times": "harness-scripted from the seed (fault-injection surface)",
 			},
 		},
@@ -482,6 +512,11 @@ func doReplay(path string) {
 	spec := props[v.Property]
 	worker := prepare(spec.Race)
 	cmd := exec.Command(worker, "-replay", path)
+	if spec.Race {
+		rl := filepath.Join(scratch, "race-replay")
+		cmd.Args = append(cmd.Args, "-racelog", rl, "-libprefix", repoDir)
+		cmd.Env = append(os.Environ(), "GOMAXPROCS=1", "GORACE=halt_on_error=0 exitcode=0 log_path="+rl)
+	}
 	cmd.Stdout = os.Stdout
 	cmd.Stderr = os.Stderr
 	err = cmd.Run()
